@@ -38,6 +38,48 @@ for item in sys.argv:
 else:
     last = None
 '''
+MULTI = '''import sys
+class Alpha(object):
+    shared = 1
+    def run(self):
+        self.state = 1
+    def stop(self):
+        self.state = 2
+        self.extra = 3
+class Beta(object):
+    shared = 2
+    def run(self):
+        self.state = 4
+class Gamma(Alpha):
+    def run(self):
+        self.state = 5
+        self.Extra = 6
+Config = 1
+config = 2
+Handler = 3
+handler = 4
+if sys.argv:
+    obj = Alpha()
+elif sys.path:
+    obj = Beta()
+else:
+    obj = Gamma()
+try:
+    worker = Beta()
+except Exception:
+    worker = Alpha()
+def view(request, Request):
+    for RETRY in sys.argv:
+        retry = RETRY
+    else:
+        Retry = None
+    return retry
+obj.run
+obj.shared
+obj.state
+worker.run
+worker.state
+'''
 USER = '''from cond import pick, codec, last
 import cond
 pick
@@ -64,7 +106,7 @@ def run(tier, replay=None):
     wd = core.scratch('c17-')
     try:
         thorough = tier == 'thorough'
-        nproc = 12 if thorough else 5
+        nproc = 16 if thorough else 8
         # M-spec
         r_fix = core.tlc('AltOrder', 'AltOrder_fixed.cfg', workdir=wd)
         r_pin = core.tlc('AltOrder', 'AltOrder_pinned.cfg', workdir=wd)
@@ -110,6 +152,21 @@ def run(tier, replay=None):
                 requests.append({'id': 'p-asst%d' % i, 'kind': 'assist', 'source': USER + line + '.', 'filename': ufile,
                                  'pos': [len(USER.split('\n')), len(line) + 1]})
             requests.append({'id': 'p-lint', 'kind': 'lint', 'source': USER, 'filename': ufile, 'pos': [0, 0]})
+            mfile = os.path.join(projdir, 'multi.py')
+            open(mfile, 'w').write(MULTI)
+            mlines = MULTI.split('\n')
+            for i, line in enumerate(mlines, 1):
+                if line in ('obj.run', 'obj.shared', 'obj.state', 'worker.run', 'worker.state'):
+                    requests.append({'id': 'm-loc%d' % i, 'kind': 'location', 'source': MULTI, 'filename': mfile, 'pos': [i, len(line) - 1]})
+            nl = len(mlines)          # MULTI ends with a newline: the appended line is line number nl
+            for k, tail in enumerate(('obj.x', 'worker.x', 'conf', 'hand')):
+                col = len(tail) - 1 if tail.endswith('.x') else len(tail)
+                requests.append({'id': 'm-asst%d' % k, 'kind': 'assist', 'source': MULTI + tail + '\n', 'filename': mfile, 'pos': [nl, col]})
+            fnsrc = MULTI.replace('    return retry', '    return retr')
+            fl = [i for i, l in enumerate(fnsrc.split('\n'), 1) if l == '    return retr'][0]
+            requests.append({'id': 'm-asst-fn', 'kind': 'assist', 'source': fnsrc, 'filename': mfile, 'pos': [fl, 15]})
+            requests.append({'id': 'm-alts', 'kind': 'alts', 'source': MULTI, 'filename': mfile, 'pos': [0, 0]})
+            requests.append({'id': 'm-lint', 'kind': 'lint', 'source': MULTI, 'filename': mfile, 'pos': [0, 0]})
             cfile = os.path.join(projdir, 'cond.py')
             requests.append({'id': 'p-alts', 'kind': 'alts', 'source': COND, 'filename': cfile, 'pos': [0, 0]})
             # 3. the repository's own files: reads with several alternatives
@@ -128,7 +185,7 @@ def run(tier, replay=None):
                     requests.append({'id': 'f%d-loc-%d-%d' % (i, ln, col), 'kind': 'location', 'source': src, 'filename': f,
                                      'pos': [ln, col + 1 if len(nm) > 1 else col + len(nm)]})
         sources = [projdir, core.REPO] if projdir else ['/nonexistent-verif-root']
-        configs = [(rng.randrange(1, 2 ** 31), rng.choice([0, 10, 1000, 50000, 200000])) for _ in range(nproc)]
+        configs = [(rng.randrange(1, 2 ** 31), rng.choice([0, 10, 333, 1000, 7777, 50000, 200000])) for _ in range(nproc)]
         configs[0] = (0, 0)
         with ThreadPoolExecutor(max_workers=min(core.NCPU, nproc)) as ex:
             outs = list(ex.map(lambda c: run_proc(requests, c[0], c[1], sources), configs))
@@ -141,6 +198,8 @@ def run(tier, replay=None):
                     texts.append(json.dumps(o.get('%s/%d' % (q['id'], rep)), sort_keys=True))
             digests = [hashlib.sha1(t.encode()).hexdigest()[:12] for t in texts]
             first = json.loads(texts[0])
+            if q['id'].startswith(('m-', 'p-')) and first and first[0] == 'exc' and not replay:
+                raise core.MachineryFailure('request %s of the generated project raises %s: the C17 project text is broken' % (q['id'], first[1:]))
             alts = []
             nalts = 0
             if first and first[0] == 'ok':
